@@ -6,7 +6,7 @@ import socket
 import threading
 import zlib
 
-from harness import common
+from harness import common, wsdlkit
 
 ID = "C15"
 LEAN_MODULES = ["SudsModel.Props.C15"]
@@ -108,9 +108,16 @@ def run(ctx):
             if ce:
                 headers["Content-Encoding"] = ce
             resp_body = rand_bytes(rng, rng.choice([0, 10, 3000]))
-            rce = rng.choice([None, None, "gzip", "deflate"])
-            wire = resp_body if rce is None else (gzip.compress(resp_body) if rce == "gzip" else zlib.compress(resp_body))
-            rh = [("Content-Encoding", rce)] if rce else []
+            rce = rng.choice([None, None, "gzip", "deflate", "gzip-multi", "gzip-empty"])
+            if rce == "gzip-multi":
+                # RFC 1952: a gzip file is a series of members; the body is their concatenation
+                k = len(resp_body) // 2
+                wire = gzip.compress(resp_body[:k]) + gzip.compress(resp_body[k:])
+            elif rce == "gzip-empty":
+                resp_body, wire = b"", b""
+            else:
+                wire = resp_body if rce is None else (gzip.compress(resp_body) if rce == "gzip" else zlib.compress(resp_body))
+            rh = [("Content-Encoding", "gzip" if rce and rce.startswith("gzip") else rce)] if rce else []
             srv.httpd.plan = lambda h, wire=wire, rh=rh: {"status": 200, "body": wire, "headers": rh}
             t = suds.transport.http.HttpTransport()
             req = suds.transport.Request(srv.url(), msg)
@@ -143,6 +150,49 @@ def run(ctx):
                              hdr(seen, k), [v])
             if reply.message != resp_body:
                 ctx.fail("caller did not receive the response body", meta, reply.message[:40], resp_body[:40])
+        # ---- the SOAPAction a real client sends (declared in the WSDL, non-ASCII included), over the real transport
+        for action in ("urn:act", "caf\u00e9-\u00fcber", "\u03a9mega", ""):
+            wsdl = wsdlkit.wsdl_doc('<xsd:element name="f"><xsd:complexType><xsd:sequence/></xsd:complexType>'
+                                    '</xsd:element>', "f", None, location=srv.url("/act"), action=action)
+            srv.httpd.plan = lambda h: {"status": 200, "body": b""}
+            del srv.httpd.seen[:]
+            c = wsdlkit.client(wsdl, transport=suds.transport.https.HttpAuthenticated())
+            meta = {"soapAction": action}
+            ctx.case(("soapaction", action), True)
+            try:
+                c.service.f()
+            except Exception as e:
+                ctx.fail("a call with this soapAction failed", meta, repr(e), "a request")
+                continue
+            seen = srv.httpd.seen[-1] if srv.httpd.seen else None
+            got = hdr(seen, "SOAPAction") if seen else None
+            # http.server decodes header bytes as ISO-8859-1: undo that to see the bytes on the wire
+            raw = [g.encode("iso-8859-1") for g in got] if got else got
+            want = [('"%s"' % action).encode("utf-8")]
+            if raw != want:
+                ctx.fail("the SOAPAction of the WSDL does not reach the server (UTF-8) exactly once", meta, raw, want)
+        # ---- proxy option: followed at every request, also when changed after the first one
+        proxy = Server()
+        try:
+            t = suds.transport.http.HttpTransport()
+            for step, use_proxy in enumerate([False, True, False, True]):
+                t.options.proxy = {"http": "127.0.0.1:%d" % proxy.port} if use_proxy else {}
+                del srv.httpd.seen[:]
+                del proxy.httpd.seen[:]
+                srv.httpd.plan = proxy.httpd.plan = lambda h: {"status": 200, "body": b"<ok/>"}
+                ctx.case(("proxy", step), True)
+                try:
+                    t.send(suds.transport.Request(srv.url("/p%d" % step), b"<m/>"))
+                except Exception as e:
+                    ctx.fail("exchange through the configured proxy setting failed", {"step": step, "proxy": use_proxy},
+                             repr(e), "a reply")
+                    continue
+                where = ("proxy" if proxy.httpd.seen else "") + ("origin" if srv.httpd.seen else "")
+                if where != ("proxy" if use_proxy else "origin"):
+                    ctx.fail("the request did not go where the proxy option says", {"step": step, "proxy": use_proxy},
+                             where, "proxy" if use_proxy else "origin")
+        finally:
+            proxy.close()
         # ---- statuses
         reqs, reals = [], []
         for status in list(range(200, 600, 7)) + [200, 201, 202, 204, 299, 300, 301, 304, 400, 401, 403, 404, 500, 503, 599]:
